@@ -44,3 +44,55 @@ Theorem C12_last_delay_skips : forall g f now,
   group_ready g now = false.
 Proof. exact last_delay_skips. Qed.
 Print Assumptions C12_last_delay_skips.
+
+(* ---- the rotation clause (round robin among equal priorities) ---------------- *)
+From STS Require Import Proofs.QueueRotP.
+
+(* one Pop: either the ready group hn is the one served, or the group served
+   instead goes behind it: the number of groups of hn's priority in front of hn
+   drops by one when the served group has that priority and is unchanged otherwise *)
+Theorem C12_rotation_step : forall q now q' out hn p h,
+  psorted (map prio q) -> NoDup (map gname q) ->
+  pop_aux q now = (q', Some out) ->
+  In h q -> gname h = hn -> prio h = p -> group_ready h now = true ->
+  exists g, first_ready q now = Some g /\
+    (gname g = hn \/
+     (gname g <> hn /\
+      (rank hn p q' + (if (prio g =? p)%Z then 1 else 0))%nat = rank hn p q)).
+Proof. exact rotation_step. Qed.
+Print Assumptions C12_rotation_step.
+
+(* bounded bypass over any run of Pops: a group that stays ready is passed over by
+   groups of its own priority at most as many times as there are such groups in
+   front of it (so at most (size of its priority class - 1) times) *)
+Theorem C12_bounded_bypass : forall nows q hn p,
+  psorted (map prio q) -> NoDup (map gname q) -> stays_ready hn p q nows ->
+  (bypassed hn p q nows <= rank hn p q)%nat.
+Proof. exact bounded_bypass. Qed.
+Print Assumptions C12_bounded_bypass.
+
+Theorem C12_rank_below_class_size : forall q hn p, (rank hn p q <= countp p q)%nat.
+Proof. exact rank_le_countp. Qed.
+Print Assumptions C12_rank_below_class_size.
+
+Theorem C12_front_of_class_is_served : forall q now q' out hn p h,
+  psorted (map prio q) -> NoDup (map gname q) ->
+  pop_aux q now = (q', Some out) ->
+  In h q -> gname h = hn -> prio h = p -> group_ready h now = true ->
+  rank hn p q = 0%nat ->
+  exists g, first_ready q now = Some g /\ (gname g = hn \/ prio g <> p).
+Proof. exact front_of_class_is_served. Qed.
+Print Assumptions C12_front_of_class_is_served.
+
+(* three groups of one priority, each with a file of several chunks: served in
+   rotation; the third group is passed over exactly twice = its rank (the bound is tight) *)
+Example C12_rotation_example :
+  let tg := mktag 1 OFIFO 10 0 in
+  let f := fun n : Z => mkqf [n] 50 25 0 false [] [] 0 25 in
+  let q0 := push [] [(f 1, [1], Some tg); (f 2, [2], Some tg); (f 3, [3], Some tg)] in
+  map (fun n => match first_ready (fst (fold_left (fun '(q, _) now => pop q now) (repeat 100 n) (q0, None))) 100 with
+                | Some g => gname g | None => [] end) [0; 1; 2; 3; 4; 5]%nat
+    = [[1]; [2]; [3]; [1]; [2]; [3]]
+  /\ rank [3] 1 q0 = 2%nat /\ bypassed [3] 1 q0 [100; 100; 100; 100] = 2%nat.
+Proof. vm_compute. repeat split; reflexivity. Qed.
+Print Assumptions C12_rotation_example.
